@@ -36,13 +36,15 @@ WRITE_CMDS = (2, 3, 5, 6, 8, 9, 11, 12, 13, 14)
 WIDER = {"b": "bhiq", "h": "hiq", "i": "iq", "q": "q", "B": "BHIQ", "H": "HIQ", "I": "IQ", "Q": "Q"}
 
 
-def make_fast_device(ins, outs, in_fmts=None, consts=None):
+def make_fast_device(ins, outs, in_fmts=None, consts=None, twice=None, reread=None):
     """device class copying each linked input into a DeviceVar (possibly a wider
     one of the same signedness) and each writable DeviceVar - or a constant
     fixed at generation time - into its linked output, in the generated program"""
     from ebpfcat.ebpfcat import Device, DeviceVar, TerminalVar
     in_fmts = in_fmts or ["I" if isinstance(ln["size"], int) else ln["size"] for ln in ins]
     consts = consts or [None] * len(outs)
+    twice = twice or [False] * len(outs)      # output written twice: first 0, then the value
+    reread = reread or [False] * len(ins)     # input read twice
     ns = {}
     for i, ln in enumerate(ins):
         ns[f"i{i}"] = TerminalVar()
@@ -54,7 +56,11 @@ def make_fast_device(ins, outs, in_fmts=None, consts=None):
     def program(self):
         for i in range(len(ins)):
             setattr(self, f"vi{i}", getattr(self, f"i{i}"))
+            if reread[i]:
+                setattr(self, f"vi{i}", getattr(self, f"i{i}"))
         for j in range(len(outs)):
+            if twice[j]:
+                setattr(self, f"o{j}", 0)
             if consts[j] is None:
                 setattr(self, f"o{j}", getattr(self, f"vo{j}"))
             else:
@@ -82,8 +88,10 @@ def build_devices(tape, terms, links, label, variants=False, var_factory=None):
             continue
         ins = [ln for ln in dl if ln["sm"] == "in"]
         outs = [ln for ln in dl if ln["sm"] == "out"]
-        in_fmts = consts = None
+        in_fmts = consts = twice = reread = None
         if variants:
+            twice = [tape.chance(f"{label}/written-twice", 25) for ln in outs]
+            reread = [tape.chance(f"{label}/read-twice", 15) for ln in ins]
             in_fmts = []
             for ln in ins:
                 if isinstance(ln["size"], int):
@@ -93,7 +101,7 @@ def build_devices(tape, terms, links, label, variants=False, var_factory=None):
                     in_fmts.append(w[tape.draw(f"{label}/widen", len(w))])
             consts = [wl.draw_value(tape, ln, label) if tape.chance(f"{label}/const", 30)
                       else None for ln in outs]
-        dev = make_fast_device(ins, outs, in_fmts, consts)()
+        dev = make_fast_device(ins, outs, in_fmts, consts, twice, reread)()
         dev.ins, dev.outs, dev.consts = ins, outs, consts or [None] * len(outs)
         mk = var_factory or (lambda ln, sm: PacketVar(terms[ln["term"]], sm, ln["pos"], ln["size"]))
         for i, ln in enumerate(ins):
@@ -112,9 +120,9 @@ def run(tape, scenario):
     world, bus = env.world, env.bus
     ec = FastEtherCat("sim0")
     two = scenario == "two-groups"
-    specs = wl.gen_specs(tape, "c21", max_terms=4, max_sz=10)
+    specs = wl.gen_specs(tape, "c21", max_terms=4, max_sz=10, allow_aero=True)
     if two and len(specs) < 2:
-        specs = specs + wl.gen_specs(tape, "c21b", max_terms=2, max_sz=10)
+        specs = specs + wl.gen_specs(tape, "c21b", max_terms=2, max_sz=10, allow_aero=True)
     sims, terms = wl.build(env, ec, specs)
     all_links = wl.gen_links(tape, specs, "c21", max_vars=3)
     # terminals are split between the groups (disjoint sets)
@@ -153,7 +161,7 @@ def run(tape, scenario):
         for d in dg:
             if d.cmd in WRITE_CMDS:
                 if d.cmd == LWR:
-                    exp = sum(1 for k in g.rw if specs[k]["use_fmmu"] and specs[k]["out_sz"])
+                    exp = sum(1 for k in g.rw if wl.out_via_fmmu(specs[k]) and specs[k]["out_sz"])
                 else:
                     exp = 1
                 writers.append((14 + d.hdr_pos, 14 + d.wkc_pos, d.cmd, exp,
